@@ -41,7 +41,13 @@ TIssTab  == M.iss_tab
 
 \* logged scores of the current event (key = path id as string)
 TScoreAt(e, t) == Rec[l].sc[ToString(e.id)]
-TGap(eb, ea, t) == Rec[l].raw[ToString(eb.id)] - Rec[l].raw[ToString(ea.id)]
+\* a logged gap within 2e-4 of the swap threshold is a tie in real numbers that f32 rounding decides: either decision
+\* is accepted (the gap is nudged to the side the real object took)
+TGap(eb, ea, t) ==
+  LET g == Rec[l].raw[ToString(eb.id)] - Rec[l].raw[ToString(ea.id)]
+  IN IF g - SwapThr <= 2 /\ SwapThr - g <= 2
+     THEN (IF Rec[l].s.active.id = eb.id THEN SwapThr + 1 ELSE SwapThr)
+     ELSE g
 
 RelTol == 60   \* 1e-4 units: integer decay tables vs f32 arithmetic, accumulated over a few updates
 AbsI(x) == IF x < 0 THEN -x ELSE x
